@@ -70,6 +70,9 @@ use cglue::vec::CVec;
 macro_rules! probe { ($name:ident, $t:ty) => { pub extern "C" fn $name(_a: $t) {} pub extern "C" fn ${concat(r_, $name)}() -> $t { loop {} } }; }
 """
 
+# public C-compatible types that exist only with the `task` feature; by value they expose the waker function table
+TASK_TYPES = [("crefwaker", "cglue::task::CRefWaker<'static>")]
+
 OUTSIDE_SHAPES = re.compile(r"\b(opt_str|opt_slice)\b")
 
 RUNTIME_TYPES = [
@@ -293,6 +296,38 @@ def run(prop, tier, replay, Ctx):
             mod = enclosing_mod(line_maps.get(crate, []), line) if crate.startswith("p_hs_") else None
             lint_errs.setdefault((crate, mod), []).append(m)
     rep.note("ffi_lints", "lint_errors_on_mirrored_user_signatures(not counted)", mirrored_user_sigs)
+    # ---- the library's feature-gated C-compatible types (cglue built with `task` + `futures`), in a workspace of their own so
+    #      that the features are not unified into the other probe crates
+    ws_t = os.path.join(Ctx.BUILD, "c03", "ws_task")
+    write_if_changed(os.path.join(ws_t, "Cargo.toml"), "[workspace]\nresolver = \"2\"\nmembers = [\"p_runtime_task\"]\n")
+    write_if_changed(os.path.join(ws_t, ".cargo", "config.toml"), "[net]\noffline = true\n")
+    if not os.path.exists(os.path.join(ws_t, "Cargo.lock")):
+        shutil.copy(os.path.join(repo, "Cargo.lock"), os.path.join(ws_t, "Cargo.lock"))
+    write_if_changed(os.path.join(ws_t, "p_runtime_task", "Cargo.toml"),
+                     "[package]\nname = \"p_runtime_task\"\nversion = \"0.1.0\"\nedition = \"2021\"\n\n[dependencies]\ncglue = { path = \"%s/cglue\", features = [\"task\", \"futures\"] }\n" % repo)
+    task_src = "#![allow(warnings)]\n#![deny(improper_ctypes_definitions, improper_ctypes)]\n"
+    for name, ty in TASK_TYPES:
+        task_src += "pub extern \"C\" fn arg_%s(_a: %s) {}\npub extern \"C\" fn ret_%s() -> %s { loop {} }\n" % (name, ty, name, ty)
+        task_src += "#[repr(C)] pub struct Field_%s { f: extern \"C\" fn(%s) -> %s }\n" % (name, ty, ty)
+    task_src += "pub extern \"C\" fn arg_control_waker(_a: ::core::task::Waker) {}\n"
+    write_if_changed(os.path.join(ws_t, "p_runtime_task", "src", "lib.rs"), task_src)
+    rc_t, msgs_t, stderr_t = cargo_check(Ctx, ws_t, os.path.join(Ctx.BUILD, "target-c03"))
+    task_lines = task_src.splitlines()
+    task_errs = []
+    for crate, m in msgs_t:
+        code = (m.get("code") or {}).get("code")
+        if crate != "p_runtime_task" or code not in ("improper_ctypes_definitions", "improper_ctypes"):
+            raise Ctx.Machinery("probe crate %s (task features) does not compile: %s" % (crate, (m.get("rendered") or m.get("message"))[:1500]))
+        task_errs.append(m)
+    if rc_t != 0 and not msgs_t:
+        raise Ctx.Machinery("cargo check (task features) failed without compiler messages: %s" % stderr_t[-1500:])
+    ctl_t = [e for e in task_errs if "control_waker" in task_lines[(e.get("spans") or [{}])[0].get("line_start", 1) - 1]]
+    if not ctl_t:
+        raise Ctx.Machinery("positive control (task features): core::task::Waker by value in an extern \"C\" fn was not rejected")
+    for name, ty in TASK_TYPES:
+        mine = [e for e in task_errs if ("_%s" % name) in task_lines[(e.get("spans") or [{}])[0].get("line_start", 1) - 1]]
+        viol = ("ffi_lint:runtime:%s" % name, "rustc rejects %s in an extern \"C\" signature (cglue features task + futures): %s" % (ty, mine[0].get("message"))) if mine else None
+        rep.record("ffi_lints", {"runtime_type": ty, "features": "task,futures"}, obs=ty, violation=viol)
     if rc != 0 and not msgs:
         raise Ctx.Machinery("cargo check failed without compiler messages: %s" % stderr[-1500:])
     rep.rule("ffi_lints", "every trait of the grammar tier (see C01), every generated group family, the hand-written structure members (five wrap_with forms) and every runtime wrapper type x element type in argument, return and fn-pointer-field position is expanded by the real generator and compiled with the FFI lints denied; one case per trait / group family / runtime type; distinct = distinct shapes")
